@@ -34,8 +34,11 @@ def make_points(n, seed):
         s = sum(F(g[i][j]) * v[i] * v[j] for i in range(3) for j in range(3))
         if s >= F(9, 10):
             continue
+        r0, pr = F(rng.randint(1, 8), 4), F(rng.randint(0, 6), 8)
+        if len(pts) % 7 == 3:
+            r0, pr = F(0), F(rng.randint(1, 6), 8)      # a region without baryons but with pressure (radiation): rho0 h is rho + p, h itself undefined
         pts.append({"al": a, "be": b, "gam": [F(g[0][0]), F(g[0][1]), F(g[0][2]), F(g[1][1]), F(g[1][2]), F(g[2][2])], "v": v,
-                    "r0": F(rng.randint(1, 8), 4), "ep": F(rng.randint(0, 6), 8), "pr": F(rng.randint(0, 6), 8), "kind": kind})
+                    "r0": r0, "ep": F(rng.randint(0, 6), 8), "pr": pr, "kind": kind})
     return pts
 
 
@@ -133,7 +136,7 @@ def run(tier, seed):
                 continue
             for k in range(n):
                 want = oval(k, field)
-                if want is None:
+                if want is None or (code_key == "enthalpy" and pts[k]["r0"] == 0):
                     continue
                 if scale_by == "W":
                     want = want * W[k]
@@ -176,7 +179,7 @@ def run(tier, seed):
             got = rel[code_key].reshape(SHAPES.get(field, ()) + (tot,))
             for k in range(n):
                 want = oval(k, field)
-                if want is None:
+                if want is None or (code_key == "enthalpy" and pts[k]["r0"] == 0):
                     continue
                 if scale_by == "W":
                     want = want * W[k]
